@@ -31,6 +31,10 @@
 (*   "index_by_position"     upper case letters indexed by their position   *)
 (*                           in Letters() instead of their lower case index *)
 (*   "table_no_highbit"      table form without the unpaired mark           *)
+(*   "allvalid_as_text"      AllValid reads the slice as UTF-8 text and     *)
+(*                           judges the low byte of every code point: a run *)
+(*                           of letters >= 128 that is a well-formed        *)
+(*                           sequence counts as one letter                  *)
 (* TLC must refute each of them (negative controls).                        *)
 (*                                                                          *)
 (* The model: a definition grows letter by letter from a small sample; the  *)
@@ -38,6 +42,11 @@
 (* AlphabetMC.cfg checks them; AlphabetNeg.cfg (Variant replaced by each    *)
 (* wrong variant) must be refuted.  With $OUT set, EmitCases appends every  *)
 (* case of the model and the specification's verdict on it to that file.    *)
+(*                                                                          *)
+(* Letter slices (kind "allvalid"): an alphabet over SliceDefSample and a   *)
+(* slice grown letter by letter from SliceSample, which holds letters       *)
+(* >= 128 that form well-formed 2- and 3-byte UTF-8 sequences whose code    *)
+(* point has the low byte of a valid letter, next to malformed ones.        *)
 (***************************************************************************)
 EXTENDS Integers, Sequences, FiniteSets, TLC, Json, IOUtils
 
@@ -46,7 +55,9 @@ CONSTANTS
   Sample, MaxDef,                       \* alphabet definitions: <= MaxDef letters of Sample, cased and uncased
   PairSample, MaxPair,                  \* pairing definitions: all (s, c) with <= MaxPair letters of PairSample each
   CompSample, MaxCompDef, MaxCompPair,  \* complementors: alphabet x pairing over CompSample
-  WordSample, MaxWord                   \* letter slices for AllValid
+  WordSample, MaxWord,                  \* letter slices for AllValid, every one in every alphabet state
+  SliceDefSample, MaxSliceDef,          \* letter slices as cases of their own: alphabets of <= MaxSliceDef letters
+  SliceSample, MaxSlice                 \*   and slices of <= MaxSlice letters of SliceSample (letters >= 128 included)
 
 Byte == 0..255
 
@@ -107,7 +118,40 @@ Scan(a, w, i) ==
   IF i > Len(w) THEN [ok |-> TRUE, pos |-> -1]
   ELSE IF ~a.valid[w[i]] THEN [ok |-> FALSE, pos |-> i - 1]
   ELSE Scan(a, w, i + 1)
-AllValid(a, w) == Scan(a, w, 1)
+
+\* The slice read as UTF-8 text, the way Go's unicode/utf8 (range over a string, bytes.IndexFunc, ...) does:
+\* the code point and the width of the sequence starting at w[i]; a malformed sequence is U+FFFD of width 1.
+Cont(b) == b \in 128..191
+RuneAt(w, i) ==
+  LET b == w[i]
+      n == Len(w)
+  IN IF b < 128 THEN [r |-> b, n |-> 1]
+     ELSE IF b \in 194..223 /\ i + 1 <= n /\ Cont(w[i + 1])
+       THEN [r |-> (b - 192) * 64 + (w[i + 1] - 128), n |-> 2]
+     ELSE IF /\ b \in 224..239 /\ i + 2 <= n
+             /\ w[i + 1] \in (IF b = 224 THEN 160 ELSE 128)..(IF b = 237 THEN 159 ELSE 191)
+             /\ Cont(w[i + 2])
+       THEN [r |-> (b - 224) * 4096 + (w[i + 1] - 128) * 64 + (w[i + 2] - 128), n |-> 3]
+     ELSE IF /\ b \in 240..244 /\ i + 3 <= n
+             /\ w[i + 1] \in (IF b = 240 THEN 144 ELSE 128)..(IF b = 244 THEN 143 ELSE 191)
+             /\ Cont(w[i + 2]) /\ Cont(w[i + 3])
+       THEN [r |-> (b - 240) * 262144 + (w[i + 1] - 128) * 4096 + (w[i + 2] - 128) * 64 + (w[i + 3] - 128), n |-> 4]
+     ELSE [r |-> 65533, n |-> 1]
+
+\* the wrong reading: one verdict per code point, on its low byte
+RECURSIVE ScanText(_, _, _)
+ScanText(a, w, i) ==
+  IF i > Len(w) THEN [ok |-> TRUE, pos |-> -1]
+  ELSE LET d == RuneAt(w, i)
+       IN IF ~a.valid[d.r % 256] THEN [ok |-> FALSE, pos |-> i - 1] ELSE ScanText(a, w, i + d.n)
+
+AllValid(a, w) == IF Variant = "allvalid_as_text" THEN ScanText(a, w, 1) ELSE Scan(a, w, 1)
+
+\* the widest well-formed sequence of the slice read as text (1 when there is none of several letters)
+RECURSIVE MaxWidth(_, _, _)
+MaxWidth(w, i, m) ==
+  IF i > Len(w) THEN m
+  ELSE LET d == RuneAt(w, i) IN MaxWidth(w, i + d.n, IF d.n > m THEN d.n ELSE m)
 
 (***************************************************************************)
 (* NewPairing                                                               *)
@@ -290,6 +334,7 @@ Init ==
   /\ \/ kind = "builtin" /\ name \in BuiltinNames /\ csens = FALSE
      \/ kind \in {"alpha", "comp"} /\ name = "" /\ csens \in BOOLEAN
      \/ kind = "pairing" /\ name = "" /\ csens = FALSE
+     \/ kind = "allvalid" /\ name = "" /\ csens \in BOOLEAN
 
 Next ==
   \/ /\ kind = "alpha" /\ Len(ldef) < MaxDef
@@ -307,6 +352,13 @@ Next ==
   \/ /\ kind = "comp" /\ Len(sdef) < MaxCompPair
      /\ \E x, y \in CompSample : sdef' = Append(sdef, x) /\ cdef' = Append(cdef, y)
      /\ UNCHANGED <<kind, name, csens, ldef>>
+  \* letter slices: the alphabet in ldef, then the slice in sdef
+  \/ /\ kind = "allvalid" /\ sdef = <<>> /\ Len(ldef) < MaxSliceDef
+     /\ \E x \in SliceDefSample : ldef' = Append(ldef, x)
+     /\ UNCHANGED <<kind, name, csens, sdef, cdef>>
+  \/ /\ kind = "allvalid" /\ Len(sdef) < MaxSlice
+     /\ \E x \in SliceSample : sdef' = Append(sdef, x)
+     /\ UNCHANGED <<kind, name, csens, ldef, cdef>>
 
 Spec == Init /\ [][Next]_vars
 
@@ -346,6 +398,21 @@ Words == WordsUpTo(MaxWord)
 AllValidLaw ==
   kind = "alpha" /\ AllASCII(ldef) =>
     LET a == NewAlphabet(ldef, csens) IN \A w \in Words : AllValid(a, w) = FirstInvalid(a, w)
+
+\* ---- letter slices, letters >= 128 included ----
+SliceLaw ==
+  kind = "allvalid" /\ AllASCII(ldef) =>
+    LET a == NewAlphabet(ldef, csens) IN AllValid(a, sdef) = FirstInvalid(a, sdef)
+
+\* what the specification says about a slice: all valid / first invalid letter ASCII / first invalid letter >= 128,
+\* the width of the widest well-formed UTF-8 sequence in it, and "text" when the slice read as text has another answer
+SliceStratum(a, w) ==
+  LET f == FirstInvalid(a, w)
+      wd == ToString(MaxWidth(w, 1, 1))
+  IN IF ScanText(a, w, 1) # f THEN "text-w" \o wd
+     ELSE IF f.ok THEN "valid"
+     ELSE IF w[f.pos + 1] < 128 THEN "ascii-w" \o wd
+     ELSE "high-w" \o wd
 
 \* ---- generated pairings ----
 PairingRejects ==
@@ -390,11 +457,15 @@ Stratum ==
             ELSE LET r == NewComplementor(ldef, csens, p)
                  IN IF r.err = "invalidpair" /\ BadClosed(NewAlphabet(ldef, csens), p) = {} THEN "invalidpair-closed"
                     ELSE r.err
+    [] kind = "allvalid" ->
+         LET a == NewAlphabet(ldef, csens) IN IF IsErr(a) THEN "skip" ELSE SliceStratum(a, sdef)
     [] OTHER -> "skip"
 
 EmitCases ==
   ("OUT" \in DOMAIN IOEnv /\ Stratum # "skip") =>
-    Serialize(ToJson([kind |-> kind, def |-> ldef, cased |-> csens, s |-> sdef, c |-> cdef, expect |-> Stratum]) \o "\n",
+    Serialize(ToJson(IF kind = "allvalid"
+                       THEN [kind |-> kind, name |-> "", def |-> ldef, cased |-> csens, w |-> sdef, expect |-> Stratum]
+                       ELSE [kind |-> kind, def |-> ldef, cased |-> csens, s |-> sdef, c |-> cdef, expect |-> Stratum]) \o "\n",
               IOEnv.OUT,
               [format |-> "TXT", charset |-> "UTF-8",
                openOptions |-> <<"WRITE", "CREATE", "APPEND">>]).exitValue = 0
